@@ -226,6 +226,39 @@ func init() {
 	externals["github.com/gotd/td/telegram/dcs.init#1"] = func(fr *frame, args []value) value { return nil }
 	externals["github.com/gotd/td/mtproto.init#1"] = func(fr *frame, args []value) value { return nil }
 	externals["github.com/gotd/td/telegram.init#1"] = func(fr *frame, args []value) value { return nil }
+	// entity.setLength sets the Length field of slice[index] through reflection; direct model.
+	setEntityField := func(field string) externalFn {
+		return func(fr *frame, args []value) value {
+		i := fr.i
+		idx := int(i.concInt(args[0]))
+		sl := i.asSlice(args[2])
+		if idx < 0 || idx >= len(sl) {
+			panic(runtimeError("index out of range (setLength)"))
+		}
+		itf := sl[idx].(iface)
+		ptr, ok := itf.v.(*value)
+		if !ok || ptr == nil {
+			panic(unsupported("setLength on a non-pointer entity"))
+		}
+		pt, ok := itf.t.Underlying().(*types.Pointer)
+		if !ok {
+			panic(unsupported("setLength on a non-pointer entity type"))
+		}
+		st, ok := pt.Elem().Underlying().(*types.Struct)
+		if !ok {
+			panic(unsupported("setLength on a non-struct entity"))
+		}
+		for k := 0; k < st.NumFields(); k++ {
+			if st.Field(k).Name() == field {
+				(*ptr).(structure)[k] = args[1]
+				return nil
+			}
+		}
+		panic(targetPanic{iface{t: types.Typ[types.String], v: "reflect: call of reflect.Value.SetInt on zero Value"}})
+		}
+	}
+	externals["github.com/gotd/td/telegram/message/entity.setLength"] = setEntityField("Length")
+	externals["github.com/gotd/td/telegram/message/entity.setOffset"] = setEntityField("Offset")
 	externals["crypto/internal/constanttime.boolToUint8"] = func(fr *frame, args []value) value {
 		switch b := args[0].(type) {
 		case bool:
